@@ -165,40 +165,52 @@ Definition move_tick (c : cfg) (s : ax) (cnt : Z) (k : mkind) (tgt rate d : Z) :
     if p s1 =? tgt then (finish k cnt (set_v 0 s1), true) else (s1, false)
   else (set_v 0 s, true).
 
-(* one iteration of the _program_track loop; result: new status and the mover's new
-   (counter, final_pos), None when the loop was left *)
+(* one iteration of the _program_track loop, in the order of the code.  Local variables p_Ist,
+   v_Ist of the iteration are p_, v_.  The three ptState blocks: *)
+(* if self.ptState == 2: go to the first point of the table at the commanded rate *)
+Definition tr_pt2 (c : cfg) (s : ax) (rate n k : Z) : ax * Z * Z :=
+  if ptst s =? 2 then
+    let s := set_vsoll rate (set_psoll (clampS c (n + poff s)) s) in
+    if p s =? psoll s then (s, p s, v s)
+    else let cp := calc c (p s) (psoll s) (disp (vsoll s) k) in
+         (s, cp, if cp =? psoll s then 0 else vsoll s)
+  else (s, p s, v s).
+(* if self.ptState == 4: table exhausted, keep going to the last point *)
+Definition tr_pt4 (c : cfg) (s : ax) (n p_ : Z) : ax * Z * bool :=
+  if ptst s =? 4 then
+    let s := set_psoll (clampS c (n + poff s)) s in
+    if p s =? psoll s then (s, p_, false) else (s, p s, true)
+  else (s, p_, false).
+(* if self.ptState == 3 or go_on: follow p_Bahn at the axis' maximum rate
+   (fixes/15b: elapsed time 0 gives velocity 0; the pinned tree divides by zero) *)
+Definition tr_pt3 (c : cfg) (s : ax) (p_ v_ : Z) (go_on : bool) (k : Z) : ax * Z * Z :=
+  if (ptst s =? 3) || go_on then
+    let s := set_psoll (clampS c (pbahn s + poff s)) s in
+    let cp := calc c (p s) (psoll s) (disp (vmax c) k) in
+    (s, cp, if k =? 0 then 0 else rhe ((cp - p_) * 1024) k)
+  else (s, p_, v_).
+(* next_pos / final_pos selection *)
+Definition tr_select (s : ax) (final : option Z) : option Z * option Z :=
+  let nx0 := nextp s in
+  if truthy nx0 then (nx0, nx0)
+  else if (ptst s =? 4) && negb (oeqb (Some (p s)) final) && truthy final then (final, final)
+  else (nx0, final).
+Definition tr_body (c : cfg) (s : ax) (rate : Z) (nx : option Z) (k : Z) : ax * Z * Z :=
+  if truthy nx && ((ast s =? 3) && negb (stowed s)) then
+    let n := oval nx in
+    let '(s, p_, v_) := tr_pt2 c s rate n k in
+    let '(s, p_, go_on) := tr_pt4 c s n p_ in
+    tr_pt3 c s p_ v_ go_on k
+  else (s, p s, 0).
+(* result: new status and the mover's new (counter, final_pos), None when the loop was left *)
 Definition track_tick (c : cfg) (s : ax) (cnt : option Z) (rate : Z) (final : option Z) (k : Z)
   : ax * option (option Z * option Z) :=
   if negb (oeqb cnt (cur s)) && negb (traj s =? 7) then (set_pta false (set_v 0 s), None)
   else
     let cnt' := cur s in
     let s := set_traj 7 s in
-    let nx0 := nextp s in
-    let '(nx, fin) :=
-      if truthy nx0 then (nx0, nx0)
-      else if (ptst s =? 4) && negb (oeqb (Some (p s)) final) && truthy final then (final, final)
-      else (nx0, final) in
-    let '(s, p_, v_) :=
-      if truthy nx && (ast s =? 3) && negb (stowed s) then
-        let n := oval nx in
-        let '(s, p_, v_) :=
-          if ptst s =? 2 then
-            let s := set_vsoll rate (set_psoll (clampS c (n + poff s)) s) in
-            if p s =? psoll s then (s, p s, v s)
-            else let cp := calc c (p s) (psoll s) (disp (vsoll s) k) in
-                 (s, cp, if cp =? psoll s then 0 else vsoll s)
-          else (s, p s, v s) in
-        let '(s, p_, go_on) :=
-          if ptst s =? 4 then
-            let s := set_psoll (clampS c (n + poff s)) s in
-            if p s =? psoll s then (s, p_, false) else (s, p s, true)
-          else (s, p_, false) in
-        if (ptst s =? 3) || go_on then
-          let s := set_psoll (clampS c (pbahn s + poff s)) s in
-          let cp := calc c (p s) (psoll s) (disp (vmax c) k) in
-          (s, cp, if k =? 0 then 0 else rhe ((cp - p_) * 1024) k)
-        else (s, p_, v_)
-      else (s, p s, 0) in
+    let '(nx, fin) := tr_select s final in
+    let '(s, p_, v_) := tr_body c s rate nx k in
     let v_ := Z.min (Z.max v_ (- vmax c)) (vmax c) in
     (set_vsoll v_ (set_v v_ (set_p (clampS c p_) s)), Some (cnt', fin)).
 
